@@ -12,12 +12,15 @@ RFP = ['call.function_pointer_call.1/vp_error_func', 'call.function_pointer_call
 
 def jobs(tier):
     out = []
-    for n in range(4):
-        for r in range(3):
-            j = Job('interp.call[args=%d.res=%d]' % (n, r), H, 'h_call_%d_%d' % (n, r), defines={'NDEBUG': None}, unwind=5, object_bits=10,
+    shapes = [(n, r) for n in range(4) for r in range(3)]
+    if tier == 'thorough':
+        shapes += [(4, 1), (5, 0), (5, 2)]
+    if True:
+        for (n, r) in shapes:
+            j = Job('interp.call[args=%d.res=%d]' % (n, r), H, 'h_call_%d_%d' % (n, r), defines={'NDEBUG': None, 'MAXA': 5} if n > 3 else {'NDEBUG': None}, unwind=5 if n <= 3 else 7, object_bits=10,
                     timeout=900, solver='cadical',
                     ops=[('rename_def', 'get_ff_interface', 'get_ff_interface__real', 'vp_model_get_ff_interface')],
-                    kind='bounded', bound='prototype arity fixed per job (0..3 arguments, any split fixed/variadic; 0..2 results); scratch capacities 1..8',
+                    kind='bounded', bound='prototype arity fixed per job (quick: 0..3 arguments, thorough: also 4 and 5; any split fixed/variadic; 0..2 results); scratch capacities 1..8',
                     scope=['vp_on_error', 'vp_tramp', 'get_ff_interface', 'narrow', 'run_call'])
             j.strict_reach = False
             j.restrict_fp = RFP
